@@ -27,7 +27,8 @@ VARIABLES l, mismatch
 vars == <<l, mismatch>>
 IsPoolWorker(label) == \E k \in 2..Len(label) : SubSeq(label, k, k) = "#" /\ SubSeq(label, k - 1, k - 1) = "/"
 Judge(e) ==
-  IF \E i \in 1..Len(e.procs) : e.procs[i].alive /\ ~e.procs[i].palive THEN "NoOrphan"
+  \* (kind "free": spawned by a worker on its own, without a link - nobody but a node stop is responsible for it)
+  IF \E i \in 1..Len(e.procs) : e.procs[i].kind # "free" /\ e.procs[i].alive /\ ~e.procs[i].palive THEN "NoOrphan"
   ELSE IF e.stop \notin {"", "ok"} THEN "StopReturns"
   ELSE IF e.stop = "ok" /\ \E i \in 1..Len(e.left) : ~IsPoolWorker(e.left[i]) THEN "StopWaits"
   ELSE IF e.stop = "ok" /\ e.left # <<>> THEN "StopWaitsPool"
